@@ -1,26 +1,30 @@
 package gmtls
 
 import (
+	"crypto"
+	"crypto/ecdsa"
 	"crypto/rand"
+	"errors"
 	"math/big"
 	"time"
 
+	"crypto/x509/pkix"
 	"github.com/tjfoc/gmsm/sm2"
 	"github.com/tjfoc/gmsm/x509"
-	"crypto/x509/pkix"
 )
 
 // scenario of the client-certificate harness (symbolic side)
 var zzCC struct {
-	signedByTrustedCA bool
-	hasClientAuthEKU  bool
-	verifyCalls       int
+	signedByTrustedCA  bool
+	hasClientAuthEKU   bool
+	verifyCalls        int
 	rootsWereClientCAs bool
-	pool              *x509.CertPool
+	pool               *x509.CertPool
 }
 
 func zzCCParse(der []byte) (*x509.Certificate, error) {
-	return &x509.Certificate{Raw: der, PublicKey: &sm2.PublicKey{}}, nil
+	// the parser yields *ecdsa.PublicKey on the SM2 curve for SM2 certificates
+	return &x509.Certificate{Raw: der, PublicKey: &ecdsa.PublicKey{Curve: sm2.P256Sm2()}}, nil
 }
 
 // zzCCVerify models chain verification by its contract: it succeeds iff the certificate is
@@ -59,7 +63,7 @@ func zzMkCert(tmpl, parent *x509.Certificate, pub *sm2.PublicKey, signer *sm2.Pr
 //
 //verif:property C08
 //verif:expect-reach end accepted
-//verif:bound ClientAuth each of the five policies; one presented certificate that is / is not signed by a CA in ClientCAs and does / does not carry the clientAuth extended key usage; symbolic run: chain verification replaced by its contract; native replay: real SM2 CA and client certificates, real x509 verification
+//verif:bound ClientAuth each of the five policies; GMSSL and TLS-mode server; application callback VerifyPeerCertificate unset / accepting / refusing; one presented certificate that is / is not signed by a CA in ClientCAs and does / does not carry the clientAuth extended key usage; symbolic run: chain verification replaced by its contract; native replay: real SM2 CA and client certificates, real x509 verification
 //verif:outside longer chains and the details of path validation (C10)
 //verif:stub-symbolic github.com/tjfoc/gmsm/x509.ParseCertificate zzCCParse
 //verif:stub-symbolic (*github.com/tjfoc/gmsm/x509.Certificate).Verify zzCCVerify
@@ -108,7 +112,29 @@ func zzH_c08_client_cert() {
 		cfg.ClientCAs = zzCC.pool
 		chain = [][]byte{{7}}
 	}
-	pub, err := hs.processCertsFromClient(chain)
+	// the application's own verification callback: consulted for every presented chain,
+	// after the built-in verification (when the policy asks for one) has succeeded
+	hasCB, cbOK := vBool("callbackSet"), vBool("callbackAccepts")
+	cbCalls, cbArgsOK := 0, false
+	if hasCB {
+		cfg.VerifyPeerCertificate = func(raw [][]byte, chains [][]*x509.Certificate) error {
+			cbCalls++
+			cbArgsOK = len(raw) == 1 && &raw[0][0] == &chain[0][0] && (len(chains) > 0) == (policy >= VerifyClientCertIfGiven)
+			if !cbOK {
+				return errors.New("zz: application refuses this certificate")
+			}
+			return nil
+		}
+	}
+	var pub crypto.PublicKey
+	var err error
+	if vChoice("tlsMode", 2) == 1 {
+		c.vers = VersionTLS12
+		pub, err = (&serverHandshakeState{c: c}).processCertsFromClient(chain)
+	} else {
+		pub, err = hs.processCertsFromClient(chain)
+	}
+	builtinOK := policy < VerifyClientCertIfGiven || (signed && eku)
 	if err == nil {
 		vReach("accepted")
 		vAssert("accepted-has-key", pub != nil && len(c.peerCertificates) == 1)
@@ -116,10 +142,12 @@ func zzH_c08_client_cert() {
 			vAssert("verifying-policy-accepts-only-chains-to-client-cas", signed)
 			vAssert("verifying-policy-accepts-only-client-auth-certificates", eku)
 		}
+		vAssert("accepted-only-with-the-applications-consent", !hasCB || (cbCalls == 1 && cbOK && cbArgsOK))
 	} else if policy < VerifyClientCertIfGiven {
-		vAssert("non-verifying-policy-does-not-reject", false)
+		vAssert("non-verifying-policy-rejects-only-on-the-callbacks-word", hasCB && !cbOK && cbCalls == 1)
 	} else {
-		vAssert("valid-client-certificate-not-rejected", !(signed && eku))
+		vAssert("valid-client-certificate-not-rejected", !(signed && eku) || (hasCB && !cbOK))
 	}
+	vAssert("callback-not-consulted-for-chains-the-library-refused", builtinOK || cbCalls == 0)
 	vReach("end")
 }
